@@ -281,6 +281,7 @@ type Clause struct {
 	Label string
 	Text  string
 	Expr  *Node
+	Props []string // properties this clause serves (empty: the function's props)
 }
 
 type LoopSpec struct {
@@ -375,7 +376,12 @@ func ParseContractFile(path string, into *ContractFile) error {
 			if err != nil {
 				return Clause{}, fmt.Errorf("%s: in %q: %v", path, s, err)
 			}
-			return Clause{Label: label, Text: s, Expr: n}, nil
+			var props []string
+			if i := strings.Index(label, "/"); i >= 0 {
+				props = strings.Split(label[:i], ",")
+				label = label[i+1:]
+			}
+			return Clause{Label: label, Text: s, Expr: n, Props: props}, nil
 		}
 		switch kw {
 		case "func":
@@ -518,7 +524,7 @@ func ParseContractFile(path string, into *ContractFile) error {
 // labelRe: returns the label if s starts with "label:" (identifier chars and '-') not followed by ':'.
 func labelRe(s string) string {
 	i := 0
-	for i < len(s) && (unicode.IsLetter(rune(s[i])) || unicode.IsDigit(rune(s[i])) || s[i] == '-' || s[i] == '_') {
+	for i < len(s) && (unicode.IsLetter(rune(s[i])) || unicode.IsDigit(rune(s[i])) || s[i] == '-' || s[i] == '_' || s[i] == ',' || s[i] == '/') {
 		i++
 	}
 	if i == 0 || i >= len(s) || s[i] != ':' {
